@@ -858,6 +858,10 @@ impl Engine for C10 {
                             if *needs_comments && !comments {
                                 continue;
                             }
+                            // a (minimised) plan whose program no longer holds the text demands nothing
+                            if !p.program.contains(text.as_str()) {
+                                continue;
+                            }
                             st(&mut rep, "probe:planted-multiline-text-checked", 1);
                             if !code.contains(text.as_str()) {
                                 viol.push(Violation::new("K5", "K5:planted-text-altered", format!("[{tag}] program text {:?} is not in the output any more", text)));
